@@ -238,7 +238,13 @@ def errprop(ctx, fn, paths, body, rule="D3-ERRPROP"):
                     and ("Result" in x.path or "Option" in x.path or "Iterator" in x.path)]
             inst = "%s@%s" % (e.path.split("::")[-1], "result")
             key = (e.bb,)
-            condd = [c for c in later if c.kind == "cond" and mentions(c.term, lambda s: s == R) and c.term[0] == "discr"]
+            opt = dty.startswith("std::option::Option<")
+
+            def is_result_term(t):
+                if not opt:
+                    return t == R
+                return isinstance(t, tuple) and t[0] == "field" and t[1] == ("downcast", R, "Some")
+            condd = [c for c in later if c.kind == "cond" and c.term[0] == "discr" and is_result_term(c.term[1])]
             if sink:
                 ctx.violation(rule, fn, "call=%s" % e.path, "Result of %s is discarded through %s" % (e.path, sink[0].path), body.span_of(e.bb))
                 continue
